@@ -126,6 +126,17 @@ def run(ctx):
             ctx.violation(dict(cfg="big", kind=kind, levy=lv, supplied=sup), f"Gram entry {det}",
                           replay=dict(cfg=big.as_dict(), queries=qs, levy=lv, supplied=sup))
 
+    # ---- deep trees: solver-shaped histories with the real warm-up (chains deeper than 64, pre-shaped pieces) ---
+    deep = [(150, 45, False), (624, None, True), (300, None, False)] if quick else \
+           [(150, 45, False), (624, None, True), (300, None, False), (1000, 45, True), (700, 1, False), (900, 0, True)]
+    for (n, cs, hint) in deep:
+        fails, info = P.deep_law(n, cs, hint, backward=not quick)
+        if any(f[0] == "machinery_label_overflow" for f in fails):
+            raise RuntimeError(f"label overflow {fails}")
+        ctx.case(("deep", n, cs, hint), sample=dict(deep=dict(n=n, cache_size=cs, dt_hint=hint), info=info))
+        for kind, det in fails[:2]:
+            ctx.violation(dict(kind=kind, cache_size=cs, dt_hint=hint), f"{kind}: {det}", replay=dict(n=n, cache_size=cs, dt_hint=hint))
+
     # ---- Levy-area approximations ---------------------------------------------------------------------
     for levy in ("davie", "foster"):
         fails, worst = P.check_levy(levy, levytab)
